@@ -704,8 +704,14 @@ async def ext_task(x, prog, slots):
         if o == 'cancelrl':
             b = RT.buses[op[1]]
             if b._runloop_task is not None and not b._runloop_task.done():
-                RT.rec('cancelRl', x=x, b=op[1])
-                b._runloop_task.cancel()
+                observe = len(op) > 2 and op[2] == 'observe'
+                RT.rec('cancelRl', x=x, b=op[1], observe=observe)
+                task = b._runloop_task
+                task.cancel()
+                if observe:
+                    # longer than every handler of the scenario sleeps: has the cancelled run-loop task terminated?
+                    await asyncio.sleep(1.0)
+                    RT.rec('rlTaskDone', b=op[1], done=bool(task.done()))
             continue
         if o == 'expect':
             bi, key, pred, to = op[1], op[2], op[3], op[4]
